@@ -103,6 +103,20 @@ TNext == \/ TReset \/ TPeerSend \/ TPeerTrunc \/ TPeerClose \/ TReadCall \/ TTRe
          \/ TPeerDgram \/ TPeerWsMsg \/ TUnit \/ TCancel \/ TWriteCall \/ TWriteDone \/ TSkipped \/ TSilent
 TSpec == TInit /\ [][TNext]_tvars
 
+\* The invariants of LfsConn evaluated along the recorded execution.  Every accepted prefix is a behaviour of the specification
+\* (with observed parameters), so they can only fail where the bounded exhaustive runs did not reach (Cap = 6120, frames up
+\* to 1020 bytes, hundreds of frames).  INV_EVERY = k > 1 (thorough tier, large traces) evaluates them at every k-th event,
+\* at the end of every session and at the end of the trace; the default is every state.
+InvEvery == IF "INV_EVERY" \in DOMAIN IOEnv THEN atoi(IOEnv.INV_EVERY) ELSE 1
+Sampled == l % InvEvery = 0 \/ l > Len(Rec) \/ Rec[l].ev = "Reset"
+T_InOrder == Sampled => InOrder
+T_FramingInv == Sampled => FramingInv
+T_BufferInv == Sampled => BufferInv
+T_PongsOk == Sampled => PongsOk
+T_WritesOk == Sampled => WritesOk
+T_OutContig == Sampled => OutContig
+T_DiscOk == Sampled => DiscOk
+
 \* progress register (needs -workers 1)
 ASSUME TLCSet(1, 0)
 Progress == TLCSet(1, IF l > TLCGet(1) THEN l ELSE TLCGet(1))
